@@ -842,6 +842,20 @@ def check_c14(pid, tier, seed, rep):
             rep.violation("directed-%s" % r["name"], dict(package_dir=os.path.join(W["directed"]["srcdir"], "d" + r["name"] + "_k"), problems=probs, migrated=r.get("kessoku_go"),
                                                            how="cd <package_dir> && kessoku migrate -o kessoku.go ./ && rm wire.go && gofmt -l kessoku.go && go vet ."),
                           "directed configuration %s: %s" % (r["name"], probs[0][:300]))
+    # migrate's own type spelling (TypeConverter.TypeToExpr): the expression it produces for a random type must denote that type
+    import stage_t
+    T = stage_t.stage(seed, tier, "migrate")
+    if not T["coq_ok"]:
+        rep.violation("corrT-coq", dict(log=T["log"][-2500:]), "the type-spelling cases do not evaluate in Coq", True)
+    for m in T["mismatches"][:3]:
+        nviol += 1
+        rep.violation("type-%d" % nviol, dict(type=m["type"], spelled_as=m["observed"], imports=m["imports"],
+                                              how="migrate.NewTypeConverter(p).TypeToExpr(<type>) in a package declaring Local1, Local2, Box[T], Pair[K,V]; coq/TypeRender.v: denote"),
+                      "migrate spells type %s as an expression that denotes a different type (or none)" % m["type"])
+    if T["errors"] and not T["mismatches"]:
+        e0 = T["errors"][0]
+        rep.violation("corrT-uncovered", dict(cases=T["errors"][:5]), "type-spelling correspondence: %s (%s)" % (e0["what"], e0.get("type", "")[:120]), True)
+    cov["type_spelling_cases"] = T["n"]
     migrate_known(pid, rep)
     for b in W["invalid"]:
         if b["rc"] == 0 or b["wrote"]:
